@@ -75,6 +75,7 @@ pub struct Solver {
     pub secs_nl: f64,
     pub timeout_ms: u64,
     pub last_query: String,
+    pub last_query_only: String,
     pub tag: String,
     pub slow: Vec<String>,
     decls: Vec<String>,
@@ -93,7 +94,7 @@ fn spawn_z3() -> (Child, ChildStdin, std::sync::mpsc::Receiver<String>) {
 impl Solver {
     pub fn new(timeout_ms: u64) -> Self {
         let (child, inp, out) = spawn_z3();
-        let mut s = Solver { child, inp, out, queries: 0, n_sat: 0, n_unsat: 0, n_unknown: 0, n_nl: 0, n_killed: 0, secs: 0.0, secs_nl: 0.0, timeout_ms, last_query: String::new(), tag: String::new(), slow: vec![], decls: vec![], depth: 0, buf: String::new() };
+        let mut s = Solver { child, inp, out, queries: 0, n_sat: 0, n_unsat: 0, n_unknown: 0, n_nl: 0, n_killed: 0, secs: 0.0, secs_nl: 0.0, timeout_ms, last_query: String::new(), last_query_only: String::new(), tag: String::new(), slow: vec![], decls: vec![], depth: 0, buf: String::new() };
         s.preamble();
         s
     }
@@ -113,6 +114,7 @@ impl Solver {
         self.preamble();
         for d in &self.decls { self.buf.push_str(d); self.buf.push('\n'); }
     }
+    pub fn decls_text(&self) -> Vec<String> { self.decls.clone() }
     /// a scope-0 declaration / definition (remembered for restarts)
     pub fn declare(&mut self, l: &str) { self.decls.push(l.to_string()); self.send(l); }
     fn read_line(&mut self, limit_ms: u64) -> Option<String> { self.out.recv_timeout(std::time::Duration::from_millis(limit_ms)).ok() }
@@ -144,6 +146,7 @@ impl Solver {
         } else {
             self.send("(check-sat)");
         }
+        self.last_query_only = q.clone();
         self.last_query = q;
         self.flush();
         self.depth += 1;
@@ -269,13 +272,17 @@ pub struct Ctx {
     alin_memo: RefCell<HashMap<u32, std::rc::Rc<ALin>>>,
     poly_memo: RefCell<HashMap<u32, Option<std::rc::Rc<Poly>>>>,
     pub n_poly_decided: std::cell::Cell<u64>,
+    /// cross-check every k-th UNSAT obligation (and every SAT one) with cvc5 (0 = off)
+    pub crosscheck_every: u64,
+    pub ob_seq: u64,
+    pub crosscheck: (u64, u64, u64, Vec<String>), // asked, agreed, cvc5 had no answer, disagreements
     /// concolic path selection: every branch is decided by evaluating it (in f64) on one pseudo-random sample input
     /// derived from this seed; the decision is added to the path condition, no alternative is explored. The verdict of the
     /// obligations then covers all inputs that follow the sample's path (stated as a bound in the evidence).
     pub concolic: Option<u64>,
     fval_memo: RefCell<HashMap<u32, f64>>,
 }
-struct Level { smt: String, nl: bool, special: Vec<u32>, vars: Vec<u32> }
+struct Level { smt: String, nl: bool, special: Vec<u32>, vars: Vec<u32>, axioms: Vec<String> }
 /// Linear form with coefficients on the grid 2^-AGRID and one rigorous bound `err` (in grid units) on the total
 /// coefficient error:  |c0 - m0| + sum_i |c_i - m_i| <= err * 2^-AGRID.  Used for long recursive filters whose exact
 /// rational coefficients have tens of thousands of bits. (Worst-case error grows like (sum |k|)^t, hence the fine grid.)
@@ -376,7 +383,7 @@ impl Ctx {
             solver: Solver::new(timeout_ms), mode: Mode::Symbolic, exact_inputs: HashMap::new(),
             var_names: vec![], var_ids: HashMap::new(),
             pc: vec![], decisions: vec![], prefix: vec![], pending: vec![], trace: vec![], cache: HashMap::new(),
-            stats: PathStats::default(), violations: vec![], max_decisions: 400, check_obligations: true, approx: false, n_inputs: 0, branch_nl_timeout_ms: timeout_ms, deadline: None, pc_smt: vec![], levels: vec![], solver_epoch: 0, lin_memo: RefCell::new(HashMap::new()), n_lin_decided: std::cell::Cell::new(0), unit_box: Default::default(), alin_memo: RefCell::new(HashMap::new()), poly_memo: RefCell::new(HashMap::new()), n_poly_decided: std::cell::Cell::new(0), concolic: None, fval_memo: RefCell::new(HashMap::new()),
+            stats: PathStats::default(), violations: vec![], max_decisions: 400, check_obligations: true, approx: false, n_inputs: 0, branch_nl_timeout_ms: timeout_ms, deadline: None, pc_smt: vec![], levels: vec![], solver_epoch: 0, lin_memo: RefCell::new(HashMap::new()), n_lin_decided: std::cell::Cell::new(0), unit_box: Default::default(), alin_memo: RefCell::new(HashMap::new()), poly_memo: RefCell::new(HashMap::new()), n_poly_decided: std::cell::Cell::new(0), crosscheck_every: 0, ob_seq: 0, crosscheck: (0, 0, 0, vec![]), concolic: None, fval_memo: RefCell::new(HashMap::new()),
         }
     }
     pub fn begin_path(&mut self, prefix: Vec<u8>) {
@@ -739,9 +746,9 @@ impl Ctx {
             let newsp: Vec<u32> = sp.into_iter().filter(|n| !existing.contains(n)).collect();
             let ax = self.axioms_for(&newsp, &existing);
             self.solver.send("(push)");
-            for a in ax { self.solver.send(&format!("(assert {})", a)); }
+            for a in &ax { self.solver.send(&format!("(assert {})", a)); }
             self.solver.send(&format!("(assert {})", self.pc_smt[i]));
-            self.levels.push(Level { smt: self.pc_smt[i].clone(), nl, special: newsp, vars });
+            self.levels.push(Level { smt: self.pc_smt[i].clone(), nl, special: newsp, vars, axioms: ax });
         }
     }
     /// is `PC ∧ extra` satisfiable?
@@ -875,6 +882,25 @@ impl Ctx {
             }
         }
     }
+    /// re-ask the last obligation query (path condition + axioms + negated obligation) to cvc5 as a self-contained script
+    fn cross_check(&mut self, label: &str, z3_answer: Sat) {
+        if z3_answer == Sat::Unknown { return; }
+        let mut script = String::from("(set-logic ALL)\n");
+        for d in self.solver.decls_text() { script.push_str(&d); script.push('\n'); }
+        for l in &self.levels { for a in &l.axioms { script.push_str(&format!("(assert {})\n", a)); } script.push_str(&format!("(assert {})\n", l.smt)); }
+        script.push_str(&self.solver.last_query_only);
+        script.push_str("(check-sat)\n");
+        let path = format!("/tmp/symcheck-cc-{}-{:?}.smt2", std::process::id(), std::thread::current().id()).replace(['(', ')'], "");
+        if std::fs::write(&path, &script).is_err() { return; }
+        let out = Command::new("cvc5").args(["--lang", "smt2", "--tlimit=3000", &path]).output();
+        let _ = std::fs::remove_file(&path);
+        self.crosscheck.0 += 1;
+        let ans = out.ok().map(|o| String::from_utf8_lossy(&o.stdout).lines().next().unwrap_or("").trim().to_string()).unwrap_or_default();
+        let theirs = match ans.as_str() { "sat" => Sat::Sat, "unsat" => Sat::Unsat, _ => Sat::Unknown };
+        if theirs == Sat::Unknown { self.crosscheck.2 += 1; }
+        else if theirs == z3_answer { self.crosscheck.1 += 1; }
+        else { self.crosscheck.3.push(format!("{}: z3 {:?} vs cvc5 {:?}", label, z3_answer, theirs)); self.stats.inconclusive.push(format!("{} (solver disagreement: z3 {:?}, cvc5 {:?})", label, z3_answer, theirs)); }
+    }
     /// `a == b` as a fact for the solver, provided the engine can establish it as a polynomial identity by expansion
     pub fn lemma_eq(&self, a: Sym, b: Sym) -> Option<Cond<Sym>> {
         if a.0 == b.0 { return None; }
@@ -921,6 +947,8 @@ impl Ctx {
         }
         let neg = Cond::not(c.clone());
         let (r, model, raw) = self.query(&[neg], true);
+        self.ob_seq += 1;
+        if self.crosscheck_every > 0 && (r == Sat::Sat || self.ob_seq % self.crosscheck_every == 1) { self.cross_check(label, r); }
         if self.stats.sample_obligations.len() < 2 {
             let s = self.solver.last_query.clone();
             self.stats.sample_obligations.push(format!("; {} — negation asked with the path condition, expected unsat\n{}", label, s));
